@@ -41,6 +41,34 @@ Fourth wave, two further families (domains/w4_c17.py), same oracle:
             list of rule texts passed to both calls}.  Every network of the
             history is judged against the reference closure of its own seed;
             the witness carries the whole history (kind 'session').
+
+Fifth wave, three further families (domains/w5_c17.py) and one further input
+type.  In all three a seed goes to the generator as SMILES text AND as an RDKit
+molecule object (both documented); one seed (hyper: also methane + seed) at a
+time x rule subsets of the same size bound x {strings, rule objects}:
+  stereo - 4 skeletons with a stereo element (1,2-difluoroethene,
+           methyloxirane, .CH2-CHFCl, CHFClBr) in every labelling (none, E/Z
+           or @/@@): 12 seeds x rule subsets of {C-H, C-O scission, DEC, INC,
+           H shift, oxirane opening (SMARTS only), 1,3-ring closure} in
+           SMARTS and RING form.  DEC+INC, ring opening + ring closure and
+           the H shift regenerate the seed's constitution without its label.  A species is a constitution: the
+           reference closure is that of the unlabelled skeleton and the
+           returned species are written without stereo labels.
+  hyper  - 19 seeds with an atom above the default valence of its element
+           (methyl-X oxides at every further tabulated valence of P, S, As,
+           Se, I; DMSO, dimethyl sulfone, SO2, phosphoric acid; ammonium,
+           oxonium, nitro, borohydride ions) x seed sets {seed; methane, seed}
+           x rule subsets of {C-H, O-H, X-H, C-X scission}, SMARTS and RING
+           form.  The reference closure keeps every seed (the valence filter
+           applies to products only), as the property says.
+  open   - the 12 aromatic spellings of the aro family x rule subsets of 6
+           scissions whose pattern spans an aromatic ring bond (c:c, c:n, c:o,
+           default-bond c c and c o, [#6][#6]) plus aryl C-C and C-O scission
+           (thorough: plus aryl C-H scission): the ring is opened.  SMARTS form
+           only (a RING rule breaking an aromatic bond is not electron-
+           balanced).  Open-chain fragments keep aromatic flags and cannot be
+           kekulized, so both sides are compared by W5.flat_key of the
+           molecules (connectivity + element + charge + hydrogen count).
 """
 import itertools
 import re
@@ -49,6 +77,7 @@ from ..runner import Result
 from ..models import closure as CL
 from ..domains import w3_c17 as W3
 from ..domains import w4_c17 as W4
+from ..domains import w5_c17 as W5
 
 LEVEL = 'model_checking'
 SEEDS = ['C', 'CC', 'CCC', 'C=C', 'CO', 'CCO', 'C1CC1', 'C=O', '[CH2]C', '[H][H]']
@@ -85,6 +114,7 @@ POOL = {
 # every rule any family can name (witnesses carry names only)
 RULES = dict(W3.all_rules())
 RULES.update(W4.all_rules())
+RULES.update(W5.all_rules())
 RULES.update(POOL)
 ARO = sorted(POOL) + sorted(W4.aro_pool())
 CHAIN = sorted(W3.chain_pool())
@@ -103,9 +133,22 @@ BOUND = {t: '55 seed sets (all 1- and 2-subsets of 10 molecules incl. a radical 
             '{strings, rule objects}; plus session: all ordered pairs of %d seed texts (every '
             'distinct heavy-atom order of %s) generated one after the other with the same rules x '
             'all non-empty rule sets of size <= %d from {C-C, C-H, C-O, O-H scission} x {SMARTS, '
-            'RING text} x {same rule objects, same caller-owned list of rule texts}'
+            'RING text} x {same rule objects, same caller-owned list of rule texts}; plus, each '
+            'with the seeds given as {SMILES text, molecule objects} x {strings, rule objects}: '
+            'stereo: 12 single seeds (FC=CF, methyloxirane, .CH2-CHFCl, CHFClBr x {no label, '
+            'each of the 2 labels}) x all non-empty rule sets of size <= %d from {C-H, C-O '
+            'scission, DEC, INC, H shift, oxirane opening (SMARTS only), 1,3-ring closure} x '
+            '{SMARTS, RING text}; hyper: 19 '
+            'seeds with an atom above its default valence (8 methyl-X oxides of P/S/As/Se/I, '
+            'DMSO, dimethyl sulfone, SO2, H3PO4, 7 onium/ate ions) x {seed alone, methane + '
+            'seed} x all non-empty rule sets of size <= %d from {C-H, O-H, X-H, C-X scission} '
+            'x {SMARTS, RING text}; open: 12 aromatic seed spellings x all non-empty rule '
+            'sets of size <= %d from %d rules (6 scissions spanning an aromatic ring bond, '
+            'aryl C-C, aryl C-O%s scission), SMARTS form'
             % (KMAX[t], KMAX[t], KMAX[t], KMAX[t], len(W4.session_alphabet(t)),
-               ', '.join(W4.SESSION_MOLS[t]), KMAX[t]) for t in KMAX}
+               ', '.join(W4.SESSION_MOLS[t]), KMAX[t], KMAX[t], KMAX[t], KMAX[t],
+               len(W5.OPEN_RULES[t]), ', aryl C-H' if 'ar:cH' in W5.OPEN_RULES[t] else '')
+            for t in KMAX}
 RULE = ('each instance is generated by GenerateRxnNet and by the reference '
         'closure; states = species of the reference closures, transitions = '
         'rule applications (product sets) in them; an instance is non-trivial '
@@ -123,8 +166,20 @@ ASSUMPTIONS = ['species identity is the canonical SMILES with all hydrogens '
                'whatever further valences the table lists',
                'aromaticity is RDKit\'s perception on the seed as written '
                '(aromatic and Kekule spellings denote the same species); no '
-               'rule of the aromatic family matches a ring bond of an '
-               'aromatic ring, so ring opening is not explored',
+               'rule of the aro family matches a ring bond of an aromatic '
+               'ring (ring opening is explored by the open family)',
+               'stereo family: a species is a constitution - the rules carry '
+               'no stereo information and the generator documents none; the '
+               'reference closure is computed on the unlabelled skeleton and '
+               'returned species are compared without their stereo labels',
+               'hyper family: a seed belongs to its network whatever its '
+               'valences ("contains every seed"); the valence filter is '
+               'applied to products only',
+               'open family: species are compared by connectivity + element + '
+               'charge + hydrogen count of every atom (bond orders only change '
+               'by breaking a bond there); an instance whose reference closure '
+               'holds the same fragment with and without aromatic flags '
+               '([#6] vs [c] product templates) is not judged',
                'session family: a network is a function of the seeds and the '
                'rules as given, whatever the rule objects served before; the '
                'harness\'s counting wrappers stay around the rule objects '
@@ -140,12 +195,17 @@ MANIFEST = dict(
          'application budget proportional to the closure.  The same holds '
          'for aromatic seeds in either spelling, and for every network of a '
          'two-step history made with the same rule objects / the same '
-         'caller-owned rule list.',
+         'caller-owned rule list.  Seeds given as text or as molecule '
+         'objects; seeds carrying stereo labels (species = constitution); '
+         'seeds with atoms above the default valence (always part of their '
+         'network); aromatic seeds with rules that open the ring.',
     note='Seeds up to three heavy atoms (four in the chain family, which has '
          'heavy-atom scissions only); heteroatom seeds have one carbon and '
          'one heteroatom; order-raising rules on heteroatoms in SMARTS form '
          'only; bimolecular rules not covered.  Aromatic seeds: one ring, '
-         'at most one substituent, rules never open the ring.  Histories '
+         'at most one substituent; ring-opening rules as reaction SMARTS '
+         'only and compared up to bond orders.  Molecule-object seeds only '
+         'in the stereo, hyper and open families.  Histories '
          'on the same rule objects: two networks, one seed each.',
     ref='5/C17')
 
@@ -175,7 +235,13 @@ def rule_text(name):
     return ruleref.rule_text(atoms, seq, name='r' + re.sub('[^A-Za-z0-9]', '', name))
 
 
-def instance(R, seeds, rules, form, how, wit_only=False):
+def instance(R, seeds, rules, form, how, wit_only=False, seed_as='text', fam=None):
+    """One network.  seed_as: the seeds go to the generator as SMILES 'text'
+    or as 'mol' objects.  fam: None (species compared by canonical SMILES),
+    'stereo' (by constitution: reference closure of the unlabelled skeleton,
+    returned species written without stereo labels) or 'open' (by
+    W5.flat_key of the molecules on both sides); any other family name only
+    prefixes the violation key."""
     from rdkit import Chem
     from rdkit.Chem.AllChem import ReactionFromSmarts
     from pgradd.RDkitWrapper import GenRxnNet
@@ -186,8 +252,18 @@ def instance(R, seeds, rules, form, how, wit_only=False):
     else:
         ref_rules = [CL.RingRule(RULES[r][1], RULES[r][2]) for r in rules]
         texts = [rule_text(r) for r in rules]
-    exp, nspecies, ntrans = CL.closure(seeds, ref_rules)
+    if fam == 'stereo':
+        exp, nspecies, ntrans = CL.closure([W5.skeleton(s) for s in seeds], ref_rules)
+        show = (lambda m: Chem.MolToSmiles(m, isomericSmiles=False))
+    elif fam == 'open':
+        exp, nspecies, ntrans = W5.closure_by(seeds, ref_rules, W5.flat_key)
+        show = W5.flat_key
+    else:
+        exp, nspecies, ntrans = CL.closure(seeds, ref_rules)
+        show = Chem.MolToSmiles
     wit = dict(kind='net', seeds=list(seeds), rules=list(rules), form=form, how=how)
+    if seed_as != 'text' or fam is not None:
+        wit.update(seed_as=seed_as, fam=fam)
     R.evals += 1
     R.traces += 1
     R.states += nspecies
@@ -195,7 +271,11 @@ def instance(R, seeds, rules, form, how, wit_only=False):
     if nspecies > len(seeds):
         R.nontrivial += 1
     if len(set(exp)) != len(exp):
-        R.outcomes['unjudged(two species share a hydrogen-suppressed form)'] += 1
+        if fam == 'open':
+            R.outcomes['unjudged(reference closure holds one fragment with and '
+                       'without aromatic flags)'] += 1
+        else:
+            R.outcomes['unjudged(two species share a hydrogen-suppressed form)'] += 1
         return
     box = dict(n=0, budget=3 * nspecies * len(rules) + 100)
     patched = []
@@ -216,8 +296,12 @@ def instance(R, seeds, rules, form, how, wit_only=False):
                     setattr(GenRxnNet, nm,
                             (lambda o: (lambda t: Counting(o(t), box)))(orig))
         try:
-            res = GenRxnNet.GenerateRxnNet(list(seeds), arg_rules)
-            got = sorted(Chem.MolToSmiles(m) for m in res)
+            if seed_as == 'mol':
+                arg_seeds = [Chem.MolFromSmiles(s) for s in seeds]
+            else:
+                arg_seeds = list(seeds)
+            res = GenRxnNet.GenerateRxnNet(arg_seeds, arg_rules)
+            got = sorted(show(m) for m in res)
         except Hang:
             got = 'HANG'
         except Exception as e:       # noqa
@@ -226,6 +310,10 @@ def instance(R, seeds, rules, form, how, wit_only=False):
         for nm, orig in patched:
             setattr(GenRxnNet, nm, orig)
     tag = '%s/%s' % (form, how)
+    if fam is not None:
+        tag = '%s/%s' % (fam, tag)
+    if seed_as != 'text':
+        tag = '%s/%s' % (tag, seed_as)
     if got == exp:
         R.outcomes['closure:same'] += 1
         R.sample(dict(seeds=list(seeds), rules=texts, species=len(exp),
@@ -360,6 +448,12 @@ def shards(tier, seed):
             out.append(('aro', sd, form))
         for first in W4.session_alphabet(tier):
             out.append(('session', first, form))
+        for sd in W5.STEREO_SEEDS:
+            out.append(('stereo', sd, form))
+        for sd in W5.HYPER_SEEDS:
+            out.append(('hyper', sd, form))
+    for sd in W5.OPEN_SEEDS:
+        out.append(('open', sd, 'smarts'))
     return out
 
 
@@ -390,6 +484,19 @@ def run_shard(shard, tier):
                 for how in ('strings', 'objects'):
                     instance(R, (ss,), rs, form, how)
         return R
+    if fam in ('stereo', 'hyper', 'open'):
+        names = (W5.STEREO_RULES if fam == 'stereo' else
+                 W5.hyper_rules(ss) if fam == 'hyper' else W5.OPEN_RULES[tier])
+        seedsets = W5.hyper_seedsets(ss) if fam == 'hyper' else [(ss,)]
+        for sset in seedsets:
+            for k in range(1, KMAX[tier] + 1):
+                for rs in itertools.combinations(names, k):
+                    if form == 'ring' and any(RULES[r][1] is None for r in rs):
+                        continue
+                    for how in ('strings', 'objects'):
+                        for seed_as in W5.SEED_AS:
+                            instance(R, sset, rs, form, how, seed_as=seed_as, fam=fam)
+        return R
     if fam == 'session':
         for second in W4.session_alphabet(tier):
             for k in range(1, KMAX[tier] + 1):
@@ -411,6 +518,7 @@ def replay(w):
     if w.get('kind') == 'session':
         session(R, tuple(w['steps']), tuple(w['rules']), w['form'], w['mode'])
     else:
-        instance(R, tuple(w['seeds']), tuple(w['rules']), w['form'], w['how'])
+        instance(R, tuple(w['seeds']), tuple(w['rules']), w['form'], w['how'],
+                 seed_as=w.get('seed_as', 'text'), fam=w.get('fam'))
     return dict(violates=bool(R.violations),
                 detail='\n'.join(v['msg'] for v in R.violations) or 'holds')
